@@ -213,6 +213,61 @@ func enumerate(rec *hx.Recorder, b []byte, all bool, regions map[string]int64) (
 		}(w)
 	}
 	wg.Wait()
+	// value-aware bursts: overwrite every 1- and 2-byte window with 0x00.. and
+	// 0xFF.. (the XOR pattern is the window's own value or its complement, a
+	// burst of at most 16 bits). These are the corruptions that turn a stored
+	// CRC into a reserved value such as 0x0000.
+	buf := make([]byte, len(b))
+	for o := 1; o < len(b); o++ {
+		for w := 1; w <= 2 && o+w <= len(b); w++ {
+			if !allowed(len(b), o*8, w*8) {
+				continue
+			}
+			for _, fillv := range []byte{0x00, 0xFF} {
+				copy(buf, b)
+				for i := 0; i < w; i++ {
+					buf[o+i] = fillv
+				}
+				if bytes.Equal(buf, b) {
+					continue
+				}
+				total++
+				regions["value-aware window"]++
+				bad := ""
+				if err, p := decodeErr(buf); p != nil {
+					bad = fmt.Sprintf("Decode panicked: %v", p)
+				} else if err == nil {
+					bad = "Decode accepted"
+				} else if err, p := integrityErr(buf, false); p != nil {
+					bad = fmt.Sprintf("CheckIntegrity panicked: %v", p)
+				} else if err == nil {
+					bad = "CheckIntegrity accepted"
+				}
+				if bad != "" && best == nil {
+					// express as a burst case: XOR pattern over the window
+					var pat uint32
+					first, last := -1, -1
+					for i := 0; i < w*8; i++ {
+						by, bit := o+i/8, uint(7-i%8)
+						if (b[by]^buf[by])>>bit&1 == 1 {
+							if first < 0 {
+								first = i
+							}
+							last = i
+						}
+					}
+					for i := first; i <= last; i++ {
+						by, bit := o+i/8, uint(7-i%8)
+						if (b[by]^buf[by])>>bit&1 == 1 {
+							pat |= 1 << uint(i-first)
+						}
+					}
+					best = &corruptCase{File: fileHex, BitPos: o*8 + first, Length: last - first + 1, Pattern: pat}
+					bestMsg = fmt.Sprintf("%s a file whose bytes %d..%d were overwritten with %#02x (a burst of %d bits)", bad, o, o+w-1, fillv, last-first+1)
+				}
+			}
+		}
+	}
 	return best, bestMsg, total
 }
 
